@@ -9,4 +9,5 @@ import (
 	_ "verif/harness/c08"
 	_ "verif/harness/c16"
 	_ "verif/harness/c17"
+	_ "verif/harness/c20"
 )
